@@ -2,9 +2,9 @@ package sim
 
 import (
 	"bytes"
-	"crypto/sha256"
 	"encoding/hex"
 	"fmt"
+	"hash/crc32"
 	"runtime/debug"
 	"strings"
 	"sync"
@@ -44,6 +44,9 @@ type Request struct {
 	PonderHitAtPoll int  `json:"ponderhit_at_poll,omitempty"` // <=0 = never
 	Output          bool `json:"output"`
 	Debug           bool `json:"debug,omitempty"`
+	// NoCounters: call Go without WithCounters, the way uci.Driver does; the
+	// node count is then read from the info lines and from the poll observer.
+	NoCounters bool `json:"no_counters,omitempty"`
 }
 
 // SearchResult is everything observable about one finished search.
@@ -97,6 +100,7 @@ type agent struct {
 	extStop      bool // the stop channel belongs to somebody else (the UCI driver)
 	board        *board.Board
 	interference string
+	lastNodes    int
 
 	polls     int
 	abortPoll int
@@ -164,6 +168,7 @@ func (a *agent) poll(s *search.Search, o *search.Options) {
 	}
 	a.polls++
 	n := o.Counters.Nodes
+	a.lastNodes = n
 	if n > a.maxNodes {
 		a.maxNodes = n
 	}
@@ -248,12 +253,19 @@ func (r *lineRecorder) Write(p []byte) (int, error) {
 	return len(p), nil
 }
 
-// engineState digests everything a later search of this instance can depend on.
+// engineDigest digests everything a later search of this instance can depend
+// on (hardware CRC32-C: the tables are megabytes and this runs per search).
 func engineDigest(s *search.Search) string {
-	h := sha256.New()
+	h := crc32.New(crc32cTable)
 	s.VerifDigest(h)
-	return hex.EncodeToString(h.Sum(nil)[:12])
+	return hex.EncodeToString(h.Sum(nil))
 }
+
+var crc32cTable = crc32.MakeTable(crc32.Castagnoli)
+
+// wantDigest switches the per-search state digest on (twin comparisons need
+// it, abort sweeps do not).
+var wantDigest = true
 
 // runGo performs one search.Go under the control of an agent and returns all
 // observations. It must be called inside a synctest bubble when the request
@@ -268,7 +280,10 @@ func runGo(s *search.Search, b *board.Board, req Request, sched Sched, co *coop,
 	}
 	a.lines = &lineRecorder{a: a}
 	counters := &search.Counters{}
-	opts := []search.Option{search.WithCounters(counters), search.WithStop(a.stop)}
+	opts := []search.Option{search.WithStop(a.stop)}
+	if !req.NoCounters {
+		opts = append(opts, search.WithCounters(counters))
+	}
 	if req.Depth > 0 {
 		opts = append(opts, search.WithDepth(chess.Depth(req.Depth)))
 	}
@@ -317,6 +332,9 @@ func runGo(s *search.Search, b *board.Board, req Request, sched Sched, co *coop,
 	unregisterAgent(s)
 	res.SimElapsedUS = time.Since(start).Microseconds()
 	res.Nodes = counters.Nodes
+	if req.NoCounters {
+		res.Nodes = a.lastNodes // what the search itself counted, as last seen at a poll
+	}
 	res.Polls = a.polls
 	res.Aborted = s.VerifAborted()
 	res.Lines = a.lines.lines
@@ -336,7 +354,9 @@ func runGo(s *search.Search, b *board.Board, req Request, sched Sched, co *coop,
 		if ok, what := snapshotsEqual(before, b.VerifSnapshot()); !ok {
 			res.BoardDiff = what
 		}
-		res.Digest = engineDigest(s)
+		if wantDigest {
+			res.Digest = engineDigest(s)
+		}
 	}
 	return res
 }
